@@ -19,3 +19,7 @@ claim("C15",
 claim("C17",
       "Decides: the built-in matchers are the documented constants on every MIR path, the list-name alphabet extracted from the lexer equals {a-z,0-9,_,.} with empty/leading/trailing-dot rejection, matcher table creation and all index sites use the registration index, the compiled comparison calls match_value(name, value) on the matcher of the parsed list, absent -> false, clear() clears every matcher, `$lists` keys agree. User matchers are outside the claim.",
       TB, "MIR constant-return + HIR table/sibling rules")
+claim("C20",
+      "Decides for every extern \"C\" function: the status written in each catch_panic outcome arm and in every *::ERROR/*::PANIC constant, that every failure-valued return path is preceded by a write of the thread-local last-error (helpers recognised when all their failure paths write it), that engine entry points which can run user code are called only inside catch_panic, the NUL-substitution and terminator structure of the error string, checked UTF-8 on caller memory, thread-locality of the error slot and the wrapper->engine delegation table. Equality of texts with the Rust API is not decided.",
+      TB + " Behaviour on invalid pointers is outside the claim.",
+      "HIR return-path rule + table rules over extern \"C\" functions")
